@@ -2,7 +2,8 @@
 
 Same (rulebook, old, new) spaces as C01 (standard diff logics: default / ordered / rewrite).  For every pair the
 real make_diff / strip_unchanged / formatter.diff / gen_pre_as_diff(make_pre(.)) are compared with a path-wise
-reference computed from the two configs and the rulebook structure.
+reference computed from the two configs and the rulebook structure; the `annet file-diff` view (the pre returned by
+annet.api._read_old_new_diff_patch, rendered by gen_pre_as_diff) must read back to the same entries.
 
 Part E (end to end): for every sample of the shipped corpus, the production worker of `annet diff` (annet.diff.worker, run
 through mc/e2e.py exactly as annet.api.diff hands it to the pool) with the shipped rulebooks: every row the generators
@@ -320,6 +321,26 @@ def judge(vendor, rbk, top, rules, old, new, tier, report, stats=None):
             report(dict(base, kind="pre-diff-roundtrip"), case, "lines=%r read=%r diff=%r" % (lines, got, want))
     except Exception as e:  # noqa
         report(dict(base, kind="pre-diff-exception", exc=type(e).__name__), case, repr(e)[:300])
+    # the `annet file-diff` view: the pre that annet.api._read_old_new_diff_patch hands to gen_pre_as_diff (the function
+    # also builds a patch on the way; what it prints must still be the diff)
+    try:
+        from annet import api
+        from annet import rulebook as rulebook_mod
+        saved = rulebook_mod.get_rulebook
+        rulebook_mod.get_rulebook = lambda _hw: rbk
+        try:
+            _rb, _d, fpre, _pt = api._read_old_new_diff_patch(env.to_odict(old), env.to_odict(new), env.hw(vendor), False)
+        finally:
+            rulebook_mod.get_rulebook = saved
+        lines = list(gen_pre_as_diff(fpre, False, "  ", True))
+        got = read_pre_diff(lines, "  ")
+        if multiset(got) != multiset(want):
+            report(dict(base, kind="file-diff-view-roundtrip"), case, "lines=%r read=%r diff=%r" % (lines, got, want))
+        if stats is not None:
+            stats["file_diff_views"] += 1
+    except Exception as e:  # noqa   (a logic that refuses the pair is judged by C01/C16; here only the view matters)
+        if stats is not None:
+            stats["file_diff_view_exceptions"] += 1
     return stripped
 
 
